@@ -146,6 +146,12 @@ func rewriteExecLine(s *snap.Info, desktopFile, line string) (string, error) {
 func rewriteIconLine(s *snap.Info, line string) (string, error) {
 	icon := strings.SplitN(line, "=", 2)[1]
 
+	// ${SNAP} is expanded after this function has validated the value, so it
+	// may only appear as the leading path element.
+	if strings.Contains(strings.TrimPrefix(icon, "${SNAP}/"), "${SNAP}") && icon != "${SNAP}" {
+		return "", fmt.Errorf("icon %q uses ${SNAP} other than as its leading path element", icon)
+	}
+
 	// If there is a path separator, assume the icon is a path name
 	if strings.ContainsRune(icon, filepath.Separator) {
 		if !strings.HasPrefix(icon, "${SNAP}/") {
